@@ -12,7 +12,7 @@ AgreedBasic == (1 :> 2)
 WorldsBasic == <<
   W({}),
   W({<<1, 1, It(1, <<1, 0>>)>>, <<2, 7, It(1, <<5>>)>>}),
-  W({<<1, 1, It(1, <<2, 0>>)>>, <<-1, 3, It(1, <<4>>)>>, <<3, 1, It(1000, <<1>>)>>}),
+  W({<<1, 1, It(1, <<2, 0>>)>>, <<-1, 3, It(1, <<4>>)>>, <<3, 1, It(1000, <<1>>)>>, <<2, 9, It(1, <<>>)>>}),
   W({<<2, 7, It(1, <<0>>)>>, <<2, 8, It(1, <<0>>)>>, <<-1, 3, It(1, <<6>>)>>}) >>
 
 \* two UUID types of equal item length whose numbering depends on the builder that is recycled;
@@ -21,6 +21,18 @@ WorldsUuid == <<
   W({<<-2, 1, It(1, <<7>>)>>}),
   W({<<-1, 1, It(1, <<3>>)>>, <<-2, 1, It(1, <<8>>)>>, <<2, 1, It(1, <<0>>)>>}),
   W({<<-1, 1, It(1, <<3>>)>>, <<3, 1, It(1900, <<2>>)>>}) >>
+
+\* Checksum-neutral changes inside the first part of a two-part snapshot (the checksum is the sum of all
+\* integers): two items swap a value (A -> B), a value moves to another field of one item (A -> C), an
+\* all-zero item and a zero-length item appear (A -> D); the 1000-integer item behind them never changes, so the
+\* second part is the same in all four.  Delivering part 0 of one tick and part 1 of the next must never
+\* be accepted as the later tick.
+WorldsSwap == <<
+  W({<<1, 1, It(1, <<1, 0>>)>>, <<2, 0, It(1, <<1>>)>>, <<2, 1, It(1, <<2>>)>>, <<3, 1, It(1000, <<1>>)>>}),
+  W({<<1, 1, It(1, <<1, 0>>)>>, <<2, 0, It(1, <<2>>)>>, <<2, 1, It(1, <<1>>)>>, <<3, 1, It(1000, <<1>>)>>}),
+  W({<<1, 1, It(1, <<0, 1>>)>>, <<2, 0, It(1, <<1>>)>>, <<2, 1, It(1, <<2>>)>>, <<3, 1, It(1000, <<1>>)>>}),
+  W({<<1, 1, It(1, <<1, 0>>)>>, <<2, 0, It(1, <<1>>)>>, <<2, 1, It(1, <<2>>)>>, <<2, 2, It(1, <<0>>)>>,
+     <<2, 3, It(1, <<>>)>>, <<-1, 0, It(1, <<0>>)>>, <<3, 1, It(1000, <<1>>)>>}) >>
 
 \* UUID types with different item lengths: the renumbering makes one raw key change its length
 WorldsClash == <<
